@@ -319,6 +319,8 @@ def run(ctx):
     ctx.rule("R2", "invalid input is rejected with Err (shared rules): label cardinality / missing names in the vector lookups (C05.R4); metric and label names, empty help, duplicate and "
                    "reserved labels (C09.R1-R5); bucket lists and bucket helpers (C08.R1, R2, R6); duplicate / inconsistent registration and unknown collectors (C06.R2); "
                    "families without name or samples in both encoders (C13.R1, C04 via check_metric_family)")
+    from . import C12 as _C12
+    ctx.run_rule("R2", lambda c: C06._as(c, "R2", lambda s_: _C12.rule_vec_forms(s_, f, "L10"), keep=lambda k: "remove_label_values" in k))
     ctx.run_rule("R2", lambda c: C06._as(c, "R2", lambda s_: (C05.rule_R4(s_, f), C09.rule_R1(s_, f), C09.rule_R2(s_, f), C09.rule_R3(s_, f), C09.rule_R4(s_, f), C09.rule_R5(s_, f),
                                                               C08.rule_R1_R2(s_, f), C08.rule_R6(s_, f), C06.rule_R2(s_, f), C13.rule_R1(s_, f))))
     if ctx.tier == "thorough":
